@@ -55,6 +55,7 @@ func TestC15(t *testing.T) {
 	rec := kit.Get("C15")
 	rapid.Check(t, func(t *rapid.T) {
 		o := genOptions(t, rec)
+		genExtraOptions(t, &o, true)
 		c, _ := genOptionHistory(t, historyPlan{MinBatches: 1, MaxBatches: 8, Interleave: true, Knobs: hostileKnobs()})
 		c.Options = o
 		res, err := RunStream(c, RunConfig{CheckedAllocator: true, CheckImmutable: true})
